@@ -38,6 +38,11 @@ def main(argv):
             # u-*.patch: behaviour-preserving rewrites into idioms the engines do not model (std algorithms with lambdas):
             # the check may answer "undecided" (exit 2) but must not raise an alarm
             cases.append((os.path.basename(os.path.dirname(os.path.dirname(p))), p, "noalarm" if os.path.basename(p).startswith("u-") else "silent"))
+        # behaviour-preserving refactorings written by independent agents: tried against EVERY check, none may raise an alarm
+        allchecks = sorted(os.path.basename(c)[:-3].upper() for c in glob.glob(os.path.join(VERIF, "checks", "c[0-9]*.py")))
+        for p in sorted(glob.glob(os.path.join(VERIF, "mutants", "ALL", "noalarm", "*.patch"))):
+            for pr in allchecks:
+                cases.append((pr, p, "noalarm"))
         for m in sorted(glob.glob(os.path.join(VERIF, "seeded", "*", "meta.json"))):
             meta = json.load(open(m))
             pd = os.path.join(os.path.dirname(m), "patch.diff")
@@ -46,8 +51,10 @@ def main(argv):
             runs = sorted({c.split("-")[0] for c in meta.get("caught_by", [])}) or [meta["property"]]
             for pr in runs:
                 cases.append((pr, pd, meta.get("expect", "kill")))
-        if props:
-            cases = [c for c in cases if c[0] in props]
+        if "ALL" in argv:
+            cases = [c for c in cases if os.sep + "ALL" + os.sep in c[1]]
+        elif props:
+            cases = [c for c in cases if c[0] in props and os.sep + "ALL" + os.sep not in c[1]]
         if only:
             cases = [c for c in cases if only in c[1]]
         res = []
@@ -68,7 +75,7 @@ def main(argv):
             rules = sorted(set(l.split()[1] for l in r.stdout.splitlines() if l.startswith("  violation ")))
             good = (r.returncode == 1) if expect == "kill" else (r.returncode != 1) if expect in ("miss", "noalarm") else (r.returncode == 0)
             verdict = {0: "silent", 1: "VIOLATION", 2: "analysis-broken"}.get(r.returncode, "rc=%d" % r.returncode)
-            print("%-7s %-60s %-16s %-30s %s %.1fs" % (expect, os.path.relpath(patch, VERIF), verdict, ",".join(rules), "ok" if good else "MISSED" if expect == "kill" else "FALSE-ALARM", time.time() - t0))
+            print("%-7s %-60s %-16s %-30s %s %.1fs" % (expect, os.path.relpath(patch, VERIF) + ("@" + prop if expect == "noalarm" else ""), verdict, ",".join(rules), "ok" if good else "MISSED" if expect == "kill" else "FALSE-ALARM", time.time() - t0))
             if not good:
                 ok = False
                 if "--verbose" in argv:
